@@ -269,3 +269,56 @@ func parseModel(txt string, res map[string]uint64) {
 		}
 	}
 }
+
+// ValueOf returns the model value of a term (must follow a sat Check).
+func (s *Solver) ValueOf(t *Term) uint64 {
+	if t.IsConst() {
+		return t.val
+	}
+	str := s.termString(t)
+	s.raw("(get-value (" + str + "))")
+	s.in.Flush()
+	var sb strings.Builder
+	depth := 0
+	started := false
+	for {
+		b, err := s.out.ReadByte()
+		if err != nil {
+			panic(solverFail{"solver pipe (value): " + err.Error()})
+		}
+		sb.WriteByte(b)
+		if b == '(' {
+			depth++
+			started = true
+		}
+		if b == ')' {
+			depth--
+		}
+		if started && depth == 0 {
+			break
+		}
+	}
+	s.out.ReadString('\n')
+	txt := sb.String()
+	if strings.Contains(txt, "(error") {
+		panic(solverFail{"solver value error: " + txt})
+	}
+	// ((<term> <value>)): the value is the last token
+	f := strings.Fields(strings.NewReplacer("(", " ( ", ")", " ) ").Replace(txt))
+	for i := len(f) - 1; i >= 0; i-- {
+		v := f[i]
+		switch {
+		case strings.HasPrefix(v, "#x"):
+			n, _ := strconv.ParseUint(v[2:], 16, 64)
+			return n
+		case strings.HasPrefix(v, "#b"):
+			n, _ := strconv.ParseUint(v[2:], 2, 64)
+			return n
+		case v == "true":
+			return 1
+		case v == "false":
+			return 0
+		}
+	}
+	panic(solverFail{"solver value parse: " + txt})
+}
